@@ -510,16 +510,13 @@ func (k *KVStore) scanCommon(cursor uint64, expr string, count int, f func(e sto
 	}
 
 	if tableCursor == 0 {
-		_, ok := k.tablesByCoefficient[cf+1]
-		if !ok {
-			cf, err = k.findCoefficient(cf)
-			if err != nil {
-				// Invalid cursor
-				return 0, nil
-			}
+		// The next existing table. The coefficients may have holes after compaction.
+		next, err := k.findCoefficient(cf)
+		if err != nil {
+			// This was the last table, end of the scan.
+			return 0, nil
 		}
-		// The next table
-		return k.tableSize * (cf + 1), nil
+		return k.tableSize * next, nil
 	}
 
 	return tableCursor + (k.tableSize * cf), nil
